@@ -24,19 +24,21 @@ PROBES = {
             "update_predict_checked", "update_predict_default_cv", "update_predict_multi_step",
             "update_before_any_fh", "pickle_midway", "ensemble_parallel_update",
             "cutoff_restored_checked", "exogenous_data", "stale_batch", "failed_call_injected",
-            "batching_invariance_checked", "labels_after_stale_checked"],
+            "batching_invariance_checked", "labels_after_stale_checked",
+            "same_integers_other_kind", "frozen_model_same_time_points_checked",
+            "components_reused_elsewhere"],
     "C03": ["gapped_fh", "absolute_fh", "fh_at_fit", "fh_reused_across_cutoffs",
             "predict_after_update", "shifted_twin_checked", "gapped_vs_contiguous_checked",
             "exogenous_data", "stale_batch", "failed_call_injected", "unsorted_fh", "fh_as_index",
             "labels_after_stale_checked",
             "int_index_nonzero_origin", "negative_origin", "composite_depth2",
-            "tuned_forecaster"],
+            "tuned_forecaster", "same_integers_other_kind", "components_reused_elsewhere"],
 }
 FAULT_KINDS = {
     "C10": ["overlap_batch", "empty_batch", "pickle_roundtrip", "schedule_ooo",
-            "schedule_interleave", "peer_raises@k"],
+            "schedule_interleave", "peer_raises@k", "component_reuse"],
     "C03": ["overlap_batch", "pickle_roundtrip", "schedule_ooo", "schedule_interleave",
-            "index_shift", "peer_raises@k"],
+            "index_shift", "peer_raises@k", "component_reuse"],
 }
 RULE = {
     "C10": ("seeded histories over {fit, update(update_params), predict, update_predict_single, "
@@ -120,6 +122,8 @@ def generate(prop, rng, tier):
             if not fh_known or rng.random() < 0.75:
                 fhspec = _fh_form(rng, {"steps": _gen_steps(rng), "abs": rng.random() < 0.3})
         if r < 0.34:
+            if fhspec is not None and not fh_fit_needed and fh_known and rng.random() < 0.25:
+                fhspec = dict(fhspec, same_ints=True)
             ops.append({"op": "predict", "fh": fhspec})
             fh_known = fh_known or fhspec is not None
         elif r < 0.64:
@@ -153,6 +157,10 @@ def generate(prop, rng, tier):
         if rng.random() < 0.12:
             ops.append({"op": "bad_call", "kind": rng.choice(["faulty_cv", "faulty_cv", "insample_X"]),
                         "after": rng.randint(0, 3), "take": rng.choice([6, 8])})
+    if spec["kind"] in ("ensemble", "stack", "ttf", "mux") and rng.random() < 0.3:
+        # the user goes on using the component objects they passed in (fits them elsewhere)
+        ops.insert(rng.randint(1, len(ops)), {"op": "reuse", "start": rng.randint(0, 5),
+                                              "n": rng.randint(8, 14)})
     # empty batches: only for leaf forecasters (whose update documents them) and only
     # while the cutoff is at the end of the data seen (not after an update_predict)
     seen_upd = False
@@ -247,6 +255,7 @@ class Actor:
         self.cut = None         # position of the cutoff in y_full
         self.fh_steps = None    # horizon the forecaster remembers
         self.fh_abs = False
+        self.fh_cut = None      # position of the cutoff when that horizon was given
         self.seen = {}          # model: time key -> value
         self.fitted = False
 
@@ -451,6 +460,7 @@ class Engine:
             actor.cut = n0 - 1
             actor.fh_steps = list(fhs["steps"]) if fhs else None
             actor.fh_abs = False
+            actor.fh_cut = n0 - 1
             actor.fitted = True
             return out
         outs = self.call("fit", do)
@@ -655,10 +665,35 @@ class Engine:
         for actor in self.actors():
             if not C.needs_fh_at_fit(self.spec):
                 actor.fh_abs = True  # which horizon is remembered now is unspecified
+                actor.fh_cut = None
         self.note("bad_call", kind)
+
+    def _same_integers(self, fhs):
+        """A horizon of the OTHER kind (absolute <-> relative) written with exactly the
+        integers of the one the forecaster remembers; falls back to the plain horizon when
+        those integers would not be out-of-sample."""
+        a = self.a
+        plain = {k: v for k, v in fhs.items() if k != "same_ints"}
+        if a.fh_steps is None or a.fh_cut is None or self.kind == "period" \
+                or C.needs_fh_at_fit(self.spec):
+            return plain
+        cut = int(a.label(a.cut))
+        if not a.fh_abs:
+            steps = [int(v) - cut for v in a.fh_steps]          # absolute, same integers
+            if min(steps) < 1 or max(steps) > 40:
+                return plain
+            self.res.probe("same_integers_other_kind")
+            return {"steps": steps, "abs": True}
+        ints = [int(a.label(a.fh_cut)) + int(v) for v in a.fh_steps]
+        if min(ints) < 1 or max(ints) > 40:
+            return plain
+        self.res.probe("same_integers_other_kind")
+        return {"steps": ints, "abs": False}
 
     def op_predict(self, i, op):
         fhs = op.get("fh")
+        if fhs is not None and fhs.get("same_ints"):
+            fhs = self._same_integers(fhs)
         if fhs is None and (self.a.fh_steps is None or self.a.fh_abs):
             # no horizon known anywhere (a C20 matter), or a remembered absolute
             # horizon that may by now lie in-sample (outside the property)
@@ -706,6 +741,7 @@ class Engine:
             if fhs:
                 actor.fh_steps = list(fhs["steps"])
                 actor.fh_abs = bool(fhs.get("abs"))
+                actor.fh_cut = actor.cut
             return p
         outs = self.call(label, do)
         if outs is None:
@@ -736,6 +772,7 @@ class Engine:
             if fhs:
                 actor.fh_steps = list(fhs["steps"])
                 actor.fh_abs = bool(fhs.get("abs"))
+                actor.fh_cut = actor.cut
             return p, b
         outs = self.call("update_predict_single", do)
         if outs is None:
@@ -758,6 +795,34 @@ class Engine:
             self.check_c03_prediction(i, p, outs[1][0] if len(outs) > 1 else None, steps, fhs)
         else:
             self.check_c10_prediction(i, p, steps)
+
+    def op_reuse(self, i, op):
+        """The component objects handed to the composite's constructor are the user's: the user
+        fits them on another series.  The composite works on private copies, so nothing that
+        is checked afterwards (labels, values, memory, cutoff) may change."""
+        for actor in self.actors():
+            f = actor.f
+            comps = []
+            for attr in ("forecasters", "steps"):
+                for item in getattr(f, attr, None) or []:
+                    comps.append(item[1])
+            if hasattr(f, "final_regressor"):
+                pass  # (a tabular regressor: not a time series estimator)
+            other = actor.y.iloc[op["start"]:op["start"] + op["n"]]
+            with peers.paused():
+                for c_ in comps:
+                    try:
+                        s2 = sched.Scheduler("fifo", 0)
+                        with sched.scenario_schedule(s2):
+                            if hasattr(c_, "predict"):
+                                c_.fit(other.copy(), fh=[1, 2])
+                            else:
+                                c_.fit(other.copy())
+                    except Exception:
+                        pass
+        self.res.probe("components_reused_elsewhere")
+        self.res.fault("component_reuse")
+        self.note("reuse", op["start"], op["n"])
 
     def op_pickle(self, i, op):
         def do(actor):
@@ -827,6 +892,7 @@ class Engine:
         if not C.needs_fh_at_fit(self.spec):
             for actor in self.actors():
                 actor.fh_abs = True  # which horizon is remembered now is unspecified
+                actor.fh_cut = None
         self.note("upd", take, cvs, up, C.digest_obj(out))
         # model: everything inside a training window was handed to update
         last = -1
@@ -1027,6 +1093,27 @@ class Engine:
                 self.v("params_changed_without_update",
                        "fitted parameters changed although every update since the last fit had "
                        "update_params=False", op="update")
+            elif _time_only(self.spec) and a.kind != "period":
+                # a model that is a function of (fitted parameters, time point) only: with the
+                # parameters frozen, the forecast for a time point is the one the forecaster as
+                # of its last fit makes for that same time point from its older cutoff
+                labels = [int(a.label(a.cut)) + int(s_) for s_ in steps]
+                with peers.paused():
+                    try:
+                        from sktime.forecasting.base import ForecastingHorizon
+                        g2 = pickle.loads(self.snap_refit)
+                        q2 = g2.predict(ForecastingHorizon(pd.Index(labels, dtype=np.int64),
+                                                           is_relative=False))
+                    except Exception as e:  # noqa
+                        self.note("abs_time_twin_raised", type(e).__name__)
+                        return
+                self.res.probe("frozen_model_same_time_points_checked")
+                if not C.same_series(p, q2):
+                    self.v("forecast_not_from_new_cutoff",
+                           "parameters frozen (update_params=False), cutoff moved to %s: predict(%s) "
+                           "gives %s for the time points %s; the forecaster as of its last fit gives "
+                           "%s for those time points" % (a.label(a.cut), steps, C.fmt(p), labels[:5],
+                                                         C.fmt(q2)), op="predict", after_update=True)
 
     # ---- C03 oracles
     def check_c03_prediction(self, i, p, ptw, steps, fhs):
@@ -1154,6 +1241,26 @@ class _FaultyCV:
             def get_fh(self):
                 return self._inner.get_fh()
         return FaultyCV()
+
+
+def _time_only(spec):
+    """Forecast = f(fitted parameters, time point): no dependence on the latest observations."""
+    k = spec["kind"]
+    if k == "trend":
+        return True
+    if k == "ensemble":
+        return all(_time_only(m) for m in spec["members"])
+    if k == "mux":
+        return _time_only(spec["members"][spec["selected"]])
+    if k == "ttf":
+        def t_ok(t):
+            if t["kind"] == "optional":
+                return t_ok(t["transformer"])
+            if t["kind"] == "detrend":
+                return t.get("forecaster") is None or _time_only(t["forecaster"])
+            return t["kind"] in ("log", "deseason")
+        return all(t_ok(t) for t in spec["transformers"]) and _time_only(spec["forecaster"])
+    return False
 
 
 def _default_cv(actor):
